@@ -570,7 +570,7 @@ pub fn run_property(spec: PropSpec, opt: Options) -> i32 {
     "notes": a.notes,
     "known_findings_hit": known_hits,
     "build_profile": if cfg!(debug_assertions) { "release (debug assertions and overflow checks on)" } else { "plain (debug assertions and overflow checks off)" },
-    "other_profile_run": std::env::var("VERIF_PLAIN_SUMMARY").ok().map(|s| format!("the same checks were run first with the harness and the library built WITHOUT debug assertions and overflow checks (profile 'plain'), no violation: {}", s)),
+    "other_profile_run": std::env::var("VERIF_PLAIN_SUMMARY").ok().map(|s| if s.starts_with("NOT RUN") { format!("second configuration (no debug assertions, no overflow checks, star-sharks without std): {}", s) } else { format!("the same checks were run first with the harness and the library built WITHOUT debug assertions and overflow checks and with star-sharks without std (profile 'plain'), no violation: {}", s) }),
   });
   if spec.level == "model_checking" {
     coverage["states"] = json!(states.max(1));
